@@ -46,14 +46,16 @@ type pgState struct {
 }
 
 type pgObs struct {
-	ID        string    `json:"id"`
-	States    []pgState `json:"states"`
-	DOTStable bool      `json:"dot_stable"` // identical DOT over repeated builds
-	DOTs      int       `json:"dot_builds"`
-	RR        []bool    `json:"rr_dot_equal"`  // per repetition: g.Reversed().Reversed().GetDOT() == g.GetDOT()
-	RDOTs     int       `json:"reversed_dots"` // distinct DOT texts of g.Reversed() over repetitions
-	Panic     string    `json:"panic,omitempty"`
-	BuildErr  string    `json:"builderr,omitempty"`
+	ID                       string    `json:"id"`
+	States                   []pgState `json:"states"`
+	DOTStable                bool      `json:"dot_stable"` // identical DOT over repeated builds
+	DOTs                     int       `json:"dot_builds"`
+	RR                       []bool    `json:"rr_dot_equal"`                // per repetition: g.Reversed().Reversed().GetDOT() == g.GetDOT()
+	RDOTs                    int       `json:"reversed_dots"`               // distinct DOT texts of g.Reversed() over repetitions
+	RenderThenReverseDiffers bool      `json:"render_then_reverse_differs"` // g.Reversed().GetDOT() depends on whether g.GetDOT() was called before
+	ReversedIsOwnText        bool      `json:"reversed_is_own_text"`        // ... and equals g's own text
+	Panic                    string    `json:"panic,omitempty"`
+	BuildErr                 string    `json:"builderr,omitempty"`
 }
 
 func pgCanon(g *graph.AuthorizationModelGraph) (map[int64]string, []pgNode) {
@@ -201,6 +203,21 @@ func pgReplay(args []string) error {
 				obs.RR = append(obs.RR, err2 == nil && r2.GetDOT() == gi.GetDOT())
 			}
 			obs.RDOTs = len(rdots)
+			// rendering a graph is an observation: the text of g.Reversed() is the same whether or not g was rendered before it was
+			// reversed (and it is not g's own text: the drawing direction is the other one)
+			if ga, err := graph.NewAuthorizationModelGraph(model); err == nil {
+				if ra, err := ga.Reversed(); err == nil {
+					fresh := ra.GetDOT() // ga never rendered
+					if gb, err := graph.NewAuthorizationModelGraph(model); err == nil {
+						own := gb.GetDOT()
+						if rb, err := gb.Reversed(); err == nil {
+							after := rb.GetDOT()
+							obs.RenderThenReverseDiffers = after != fresh
+							obs.ReversedIsOwnText = after == own && len(model.GetTypeDefinitions()) > 0
+						}
+					}
+				}
+			}
 		}()
 		return w.write(obs)
 	})
